@@ -7,7 +7,7 @@ ID = "C19"
 C = "paramiko.channel.Channel."
 TARGETS = [C + "_wait_for_send_window", C + "_send", C + "_window_adjust", C + "_set_remote_channel", C + "_check_add_window",
            "paramiko.transport.Transport._sanitize_packet_size", C + "recv", C + "recv_stderr", C + "set_combine_stderr"]
-REPLAY = {"*": "c19.replay_window", "set_combine_stderr": "c19.late_combine"}
+REPLAY = {"*": "c19.replay_window", "set_combine_stderr": "c19.late_combine", "_feed_extended": "c20.replay_feed_extended"}
 
 
 def setup(E):
@@ -24,6 +24,21 @@ def setup(E):
                ensures={"moving_buffered_data_hands_no_window_back":
                         "ghost('credit_calls') == old(ghost('credit_calls')) and ghost('user_sent_count') == old(ghost('user_sent_count'))"},
                returns="bool", raises={})
+
+
+    # receiver side, the arrival path: a byte that arrives is either buffered for the application (and credited back when the
+    # application reads it - recv / recv_stderr above) or counted as consumed on the spot (extended data of a type paramiko
+    # discards), never both - a byte credited twice is window the application never consumed.  Contract shared with C20.
+    E2 = type(E)()
+    channel.declare_c20(E2)
+    global TARGETS
+    TARGETS = [t for t in TARGETS if not (isinstance(t, tuple) and t[1] == "arrival-path")]
+    for fn in ("_feed", "_feed_extended"):
+        qn = C + fn
+        TARGETS.append((qn, "arrival-path", dict(E2.contracts[qn], **{
+            "+replace": True, "+contracts": {k: v for k, v in E2.contracts.items() if k != qn},
+            "+fields": {k: dict(d["fields"]) for k, d in E2.classdecl.items()},
+            "+engine": {"monitors": E2.monitors, "ghost_types": dict(E2.ghost_types), "inline_ok": set(E2.inline_ok)}})))
 
 
 WRITERS = {
